@@ -19,8 +19,13 @@
 
 
 
+#include <new>
+
+
+
 #include "xercesc/sax/ErrorHandler.hpp"
 #include "xercesc/sax/SAXParseException.hpp"
+#include "xercesc/util/OutOfMemoryException.hpp"
 
 
 
@@ -212,6 +217,15 @@ parseDoc(
                     uri,
                     base,
                     &theErrorHandler);
+    }
+    catch(const std::bad_alloc&)
+    {
+        // Running out of memory is not a failure to retrieve the resource...
+        throw;
+    }
+    catch(const xercesc::OutOfMemoryException&)
+    {
+        throw;
     }
     catch(...)
     {
